@@ -369,7 +369,9 @@ func (ra *rawAnalysis) classifyCall(call *ssa.Call, fn *ssa.Function, out map[st
 		out["fallback-format"] = true
 	case name == "strings.Repeat":
 		out["const"] = true
-	case name == "strings.TrimRight", name == "strings.Trim", name == "strings.TrimSpace", name == "strings.ToLower", name == "strings.ReplaceAll", name == "strings.Join", name == "strings.Split":
+	case name == "strings.TrimRight", name == "strings.Trim", name == "strings.TrimSpace", name == "strings.ToLower", name == "strings.ReplaceAll", name == "strings.Join", name == "strings.Split",
+		name == "path/filepath.Base", name == "path/filepath.Dir", name == "path/filepath.Clean", name == "path.Base", name == "path.Dir", name == "path.Clean", name == "strings.TrimPrefix", name == "strings.TrimSuffix", name == "strings.TrimLeft":
+		// (pure functions of their first argument: the result is made of bytes of that argument and separators)
 		for _, a := range cc.Args[:1] {
 			ra.classify(a, fn, out, depth+1)
 		}
